@@ -341,6 +341,9 @@ def run_C16(run):
 def run_C14(run):
     q = run.tier == "quick"
     run.gen_and_replay("MC_NS", {"MaxNodes": 3 if q else 4, "TestAxes": AXES}, name="ns-configs", kind="sel-set")
+    # Flow B: seeded documents up to 16 nodes with 0..3 namespaces, 6 maps, both navigator flavours
+    tr = run.drive("ns", 4000 if q else 60000, extra=["-nodes", "16"])
+    run.validate_batch(tr, "ns-flowB")
 
 
 def run_C15(run):
@@ -513,6 +516,8 @@ def run_C11(run):
     base = consts(BASE_EXPR, UseCat=True, ElemNames={"a", "a-1"}, AttrNames={"a"}, TextVals={"1", "-1"}, WithComment=True)
     run.gen_and_replay("MC_Expr", consts(base, Family="C11pairs", MaxNodes=4 if q else 5), name="union-pairs", kind="sel-once")
     run.gen_and_replay("MC_Expr", consts(base, Family="C11more", MaxNodes=4 if q else 5), name="union-nested-seq", kind="sel-once")
+    tr = run.drive("unions", 2500 if q else 40000, extra=["-nodes", "16"])
+    run.validate_batch(tr, "unions-flowB")
     base2 = consts(base, ElemNames={"b1", "b", "a-1-1"}, TextVals={"1-1", ""}, WithComment=False)
     run.gen_and_replay("MC_Expr", consts(base2, Family="C11pairs", MaxNodes=4, UseCat=False), name="union-pairs-names2", kind="sel-once")
 
